@@ -113,11 +113,9 @@ impl LuaDeclarationTree {
                     false
                 }
                 LuaScopeKind::Repeat => {
-                    if let Some(ScopeOrDeclId::Scope(child_id)) = scope.get_children().first() {
-                        if let Some(child) = self.get_scope(child_id) {
-                            self.visit_visible_decls(child, position, true, f);
-                            return;
-                        }
+                    if let Some(body) = self.get_repeat_body(scope) {
+                        self.visit_visible_decls(body, position, true, f);
+                        return;
                     }
                     false
                 }
@@ -144,11 +142,9 @@ impl LuaDeclarationTree {
                 return;
             }
             if scope.get_kind() == LuaScopeKind::Repeat {
-                if let Some(ScopeOrDeclId::Scope(child_id)) = scope.get_children().first() {
-                    if let Some(body) = self.get_scope(child_id) {
-                        if self.search_scope_children(body, position, f) {
-                            return;
-                        }
+                if let Some(body) = self.get_repeat_body(scope) {
+                    if self.search_scope_children(body, position, f) {
+                        return;
                     }
                 }
             }
@@ -163,9 +159,24 @@ impl LuaDeclarationTree {
 
         if let Some(parent_id) = scope.get_parent() {
             if let Some(parent) = self.get_scope(&parent_id) {
-                self.visit_visible_decls(parent, position, false, f);
+                // a function expression inside the header of a `for` sees what the header sees:
+                // the loop variables are visible in the loop body only
+                let in_for_header = parent.get_kind() == LuaScopeKind::ForRange
+                    && scope.get_kind() == LuaScopeKind::Closure;
+                self.visit_visible_decls(parent, position, in_for_header, f);
             }
         }
+    }
+
+    /// the body block of a `repeat`; an empty body has no scope, then the first child scope (if any)
+    /// is a function expression inside the `until` condition
+    fn get_repeat_body(&self, scope: &LuaScope) -> Option<&LuaScope> {
+        if let Some(ScopeOrDeclId::Scope(child_id)) = scope.get_children().first() {
+            return self
+                .get_scope(child_id)
+                .filter(|child| child.get_kind() != LuaScopeKind::Closure);
+        }
+        None
     }
 
     fn search_scope_children<F>(&self, scope: &LuaScope, position: TextSize, f: &mut F) -> bool
